@@ -121,15 +121,26 @@ def run(ctx):
             d['x0'] = [float(min(max(round(v), 0), 1)) if t == 'B' else float(round(v)) if t == 'I' else v for v, t in zip(d['x0'], d['vtype'])]
         case = {"desc": d, "class": cls}
         ctx.count('front:' + front)
+        empty_row = None
+        if r.random() < 0.2:
+            # a compiled row without any stored coefficient: satisfied (0 <= 4), violated (0 <= -1.5) or a violated equality (0 == 2)
+            empty_row = str(r.choice(['satisfied', 'violated', 'violated-equality']))
+            case['empty_row'] = empty_row
         try:
             with C.quiet():
                 m, x = DM.build(d)
+                if empty_row == 'satisfied':
+                    m.st(0 * x[0] <= 4.0)
+                elif empty_row == 'violated':
+                    m.st(0 * x[0] <= -1.5)
+                elif empty_row == 'violated-equality':
+                    m.st(0 * x[0] == 2.0)
                 f = m.do_math()
         except Exception as ex:
             ctx.count('build-error:' + type(ex).__name__); continue
         ctx.nontriv(case)
         check_formula(ctx, f, dict(case, formula='primal'), 'primal')
-        if cls in ('lp', 'soc'):
+        if cls in ('lp', 'soc') and not empty_row:
             try:
                 with C.quiet():
                     m2, x2 = DM.build(d)
@@ -145,6 +156,8 @@ def replay(rp):
     c = rp['case']; d = c['desc']
     with C.quiet():
         m, x = DM.build(d)
+        if c.get('empty_row'):
+            m.st({'satisfied': 0 * x[0] <= 4.0, 'violated': 0 * x[0] <= -1.5}.get(c['empty_row'], 0 * x[0] == 2.0))
         f = m.do_math() if c.get('formula') != 'dual' else m.do_math(primal=False)
     check_formula(ctx, f, c, c.get('formula', 'primal'))
     return {"hits": [(h['key'], h['detail']) for h in ctx.hits], "fails": bool(ctx.hits)}
